@@ -317,6 +317,7 @@ class Network(BaseModel):  # pylint: disable=too-many-public-methods
                         node_xy_id += node.xy_id_offset
                     self.graph.nodes[node_name]["id"] = node_xy_id
                 for node_name, node in self.graph.get_ni_nodes(with_name=True):
+                    node_xy_id = None
                     # Search for a neighbor node *with* an array index
                     for neighbor in self.graph.neighbors(node_name):
                         if self.graph.nodes[neighbor].get("id") is not None:
@@ -333,7 +334,10 @@ class Network(BaseModel):  # pylint: disable=too-many-public-methods
                                     "id"
                                 ] + XYDirections.to_coords(edge["src_dir"])
                                 break
-                    assert node_xy_id is not None
+                    if node_xy_id is None:
+                        raise ValueError(
+                            f"Cannot derive the XY coordinate of {node_name}: "
+                            "its connection to a router needs a direction")
                     if node.xy_id_offset is not None:
                         node_xy_id += node.xy_id_offset
                     self.graph.nodes[node_name]["id"] = node_xy_id
